@@ -834,6 +834,10 @@ func (e *engine) Run(src *vs.Source, tier string, idx int64) (res *simkit.RunRes
 				viols = append(viols, simkit.Violation{Class: "cross-process-divergence", Sig: "result-differs/cross-process/process-history", Detail: "result-differs/cross-process/process-history: " + msg})
 			} else {
 				fail("result-differs", "cross-process", class, msg)
+				if len(viols) > 0 && strings.HasSuffix(viols[len(viols)-1].Sig, "/cross-process/"+class) {
+					// two natural-order executions in the reference process: Go's own map randomisation decides
+					viols[len(viols)-1].Statistical = true
+				}
 			}
 		}
 		res.Stats["cross_process_reference_runs"]++
